@@ -100,7 +100,12 @@ class SigmaConversionError(SigmaError):
         super().__init__(*args, source=source, **kwargs)
 
     def __str__(self) -> str:
-        return super().__str__() + " in rule " + str(self.rule)
+        # Identify the rule by its title or identifier: the full object representation contains
+        # sets and is therefore not stable across interpreter runs.
+        rule_ident = getattr(self.rule, "title", None) or getattr(self.rule, "id", None)
+        return super().__str__() + " in rule " + (
+            f"'{rule_ident}'" if rule_ident is not None else str(self.rule)
+        )
 
 
 class SigmaDetectionError(SigmaError):
